@@ -1084,8 +1084,8 @@ func TestC41(t *testing.T) {
 
 	nQueries := r.N(1500, 20000)
 	perEnv := r.N(125, 400)
-	nMonthQueries := r.N(480, 4800)
-	perMonthEnv := r.N(80, 150)
+	nMonthQueries := r.N(960, 9600)
+	perMonthEnv := r.N(96, 160)
 	ctx := context.Background()
 	maxAllocPerMille, maxAllocRatioN := 0, 1000
 	sampled := false // set by exec when the query went into the evidence samples
